@@ -3,8 +3,8 @@ package main
 // rules_builder.go — BLD: the search builders hand every parameter on, unconditionally.
 
 import (
-	"go/token"
 	"fmt"
+	"go/token"
 	"go/types"
 	"sort"
 	"strings"
@@ -108,7 +108,6 @@ func builderTypes(w *World, ifaces ...string) []types.Type {
 	}
 	return out
 }
-
 
 // skippedOnlyForNil: every path from the entry to a return that does not execute st decided "the stored parameter is nil".
 func skippedOnlyForNil(fn *ssa.Function, st *ssa.Store) bool {
